@@ -255,6 +255,32 @@ def programs():
                  P(COAL(V("g1"), V("d"))), P(COAL(V("g2"), V("d"))), P(CALL("orzero", V("g1"))), P(CALL("orzero", V("g2"))),
                  P({"k": "len", "e": STR("four")})]}))
 
+    # range loops with a step: upward, downward, zero and wrong-direction steps; steps that are casts whose result has
+    # another sign than their operand (the direction of the loop is that of the value actually added); a step
+    # variable that changes after its loop
+    def FORSTEP(n, lo, hi, st, body):
+        return {"k": "forstep", "n": n, "ty": tyj(I32), "lo": lo, "hi": hi, "st": st, "b": body}
+
+    def CAST(e, t="i32"):
+        return {"k": "cast", "e": e, "ty": tyj(BYNAME[t])}
+    out.append(("range_steps", {"types": [], "funcs": {},
+        "main": [LET("lo", "i32", L(0)), LET("hi", "i32", L(7)), LET("s2", "i32", L(2)), LET("m3", "i32", L(-3)), LET("z", "i32", L(0)),
+                 FORSTEP("i", V("lo"), V("hi"), V("s2"), [P(V("i"))]), P(STR("-")),
+                 FORSTEP("j", V("hi"), V("lo"), V("m3"), [P(V("j"))]), P(STR("-")),
+                 FORSTEP("k", V("lo"), V("hi"), V("z"), [P(V("k"))]), P(STR("-")),
+                 FORSTEP("q", V("hi"), V("lo"), V("s2"), [P(V("q"))]), P(STR("-")),
+                 LET("w1", "i64", L(4294967295, "i64")),          # as i32: -1
+                 FORSTEP("a", V("hi"), V("lo"), CAST(V("w1")), [P(V("a"))]), P(STR("-")),
+                 LET("w2", "i64", L(-4294967294, "i64")),         # as i32: 2
+                 FORSTEP("b", V("lo"), V("hi"), CAST(V("w2")), [P(V("b"))]), P(STR("-")),
+                 LET("w3", "i32", L(200)),                        # as i8: -56
+                 LET("lo8", "i8", L(0, "i8")), LET("hi8", "i8", L(100, "i8")),
+                 {"k": "forstep", "n": "c", "ty": tyj(BYNAME["i8"]), "lo": V("lo8"), "hi": V("hi8"), "st": CAST(V("w3"), "i8"), "b": [P(V("c"))]},
+                 P(STR("-")),
+                 LET("w4", "i64", L(4294967296, "i64")),          # as i32: 0
+                 FORSTEP("d", V("lo"), V("hi"), CAST(V("w4")), [P(V("d"))]), P(STR("-")),
+                 SET(V("s2"), L(-1)), SET(V("m3"), L(1)), P(V("s2"))]}))
+
     # by-value fixed-array and large-integer parameters: stores in the callee stay in the callee
     out.append(("byvalue_array_param", {"types": [], "funcs": {
         "bump": FN(["p"], ["[3]i32"], "i32", [SET(IX(V("p"), 0), L(126)), SET(IX(V("p"), 2), B("+", IX(V("p"), 2), L(1))),
